@@ -124,6 +124,37 @@ impl Prop for C20 {
     out
   }
 
+  /// syscall stage (thorough): expand a batch of trees under strace; between the markers every opened path must lie inside
+  /// the tree, nothing may be opened for writing, and the number of opens must equal the number of expansions of the reference
+  fn post_stage(&self, tier: Tier, seed: u64, self_exe: &str) -> Vec<(Case, Outcome)> {
+    if tier != Tier::Thorough || self_exe.is_empty() { return vec![]; }
+    let dir = format!("{}/work/c20trace-{}", verif_dir(), std::process::id());
+    let _ = std::fs::create_dir_all(&dir);
+    let log = format!("{}/strace.log", dir);
+    let out = std::process::Command::new("strace").args(["-f", "-e", "trace=open,openat,creat,unlink,unlinkat,rename,mkdir,access,faccessat,faccessat2,%network", "-o", &log, self_exe, "c20trace", &seed.to_string(), &dir]).output();
+    let case = Case { id: "syscalls;strace".into(), cell: "syscalls".into(), input: json!({"seed": seed}) };
+    let res = match (out, std::fs::read_to_string(&log)) {
+      (Ok(o), Ok(txt)) if o.status.success() => {
+        let expected: usize = String::from_utf8_lossy(&o.stdout).lines().find_map(|l| l.strip_prefix("expansions ").and_then(|x| x.trim().parse().ok())).unwrap_or(usize::MAX);
+        let (mut inside, mut opens, mut bad, mut b, mut e) = (false, 0usize, Vec::new(), false, false);
+        for l in txt.lines() {
+          if l.contains("/verif-mark-begin") { inside = true; b = true; continue; }
+          if l.contains("/verif-mark-end") { inside = false; e = true; continue; }
+          if !inside || l.contains("+++") || l.contains("--- SIG") { continue; }
+          if l.contains("open") { if l.contains("= -1") { continue; } opens += 1; if !l.contains(&dir) || l.contains("O_WRONLY") || l.contains("O_RDWR") || l.contains("O_CREAT") { bad.push(l.to_string()); } }
+          else { bad.push(l.to_string()); }
+        }
+        if !b || !e { Outcome::inconclusive("markers-missing", String::new()) }
+        else if !bad.is_empty() { Outcome::violated("foreign-or-writing-syscall", format!("{:?}", bad.iter().take(5).collect::<Vec<_>>())) }
+        else if opens != expected { Outcome::violated("open-count-differs", format!("{} files opened, the reference performs {} expansions", opens, expected)) }
+        else { Outcome::held().tag("syscalls:reads-inside-tree-only").num("opens", opens as f64) }
+      }
+      (o, _) => Outcome::inconclusive("strace-failed", format!("{:?}", o.map(|x| x.status.code()))),
+    };
+    let _ = std::fs::remove_dir_all(&dir);
+    vec![(case, res)]
+  }
+
   fn run(&self, case: &Case, _flavour: &str) -> Outcome {
     let tree: BTreeMap<String, String> = serde_json::from_value(case.input["tree"].clone()).unwrap();
     let alias = case.input["alias"].as_bool().unwrap_or(false);
@@ -167,4 +198,47 @@ impl Prop for C20 {
       }
     }
   }
+}
+
+/// number of file expansions the reference performs for a tree (root included); None if the expansion fails
+fn count_expansions(tree: &BTreeMap<String, String>, file: &str, stack: &mut Vec<String>) -> Option<usize> {
+  if stack.contains(&file.to_string()) { return None; }
+  let src = tree.get(file)?;
+  stack.push(file.to_string());
+  let mut n = 1; let mut fence: Option<(char, usize)> = None;
+  for line in src.split_inclusive('\n') {
+    if let Some((m, k)) = fence { if fence_close(line, m, k) { fence = None; } continue; }
+    if let Some(f) = fence_open(line) { fence = Some(f); continue; }
+    let t = line.trim();
+    if t.len() >= 2 && t.starts_with('{') && t.ends_with('}') && t[1..t.len() - 1].trim().ends_with(".mec") {
+      let target = t[1..t.len() - 1].trim();
+      let dir: Vec<&str> = file.split('/').collect(); let mut parts: Vec<String> = dir[..dir.len() - 1].iter().map(|s| s.to_string()).collect();
+      for comp in target.split('/') { match comp { "." | "" => {}, ".." => { parts.pop(); } c => parts.push(c.to_string()) } }
+      n += count_expansions(tree, &parts.join("/"), stack)?;
+    }
+  }
+  stack.pop();
+  Some(n)
+}
+
+/// body of `mv c20trace <seed> <dir>`: writes acyclic trees first, then only expands them between the marker syscalls
+pub fn trace_main(seed: u64, dir: &str) {
+  install_quiet_panic_hook();
+  let cases = C20.gen(Tier::Quick, seed);
+  let mut roots = Vec::new(); let mut expected = 0usize;
+  for (i, c) in cases.iter().enumerate().take(400) {
+    let tree: BTreeMap<String, String> = serde_json::from_value(c.input["tree"].clone()).unwrap();
+    if c.input["alias"].as_bool().unwrap_or(false) { continue; }
+    let Some(n) = count_expansions(&tree, "main.mec", &mut Vec::new()) else { continue };
+    let root = PathBuf::from(format!("{}/t{}", dir, i));
+    for (p, txt) in tree.iter() { let fp = root.join(p); std::fs::create_dir_all(fp.parent().unwrap()).unwrap(); std::fs::write(&fp, txt).unwrap(); }
+    roots.push(root); expected += n;
+  }
+  let b = std::ffi::CString::new("/verif-mark-begin").unwrap(); let e = std::ffi::CString::new("/verif-mark-end").unwrap();
+  unsafe { libc::access(b.as_ptr(), 0); }
+  let mut ok = 0;
+  for r in roots.iter() { if let Ok(Ok(_)) = guarded(|| mech::read_mech_source_file(&r.join("main.mec"))) { ok += 1; } }
+  unsafe { libc::access(e.as_ptr(), 0); }
+  println!("expanded {} of {}", ok, roots.len());
+  println!("expansions {}", expected);
 }
